@@ -9,6 +9,6 @@ for p in "$@"; do
   out=$(cd /verif && ./check.sh $p 2>&1)
   cp /tmp/evidence_$p.bak /verif/evidence/$p.json 2>/dev/null
   v=$(echo "$out" | grep -c '^VIOLATION')
-  echo "  $p: violations=$v $(echo "$out" | grep '^VIOLATION' | sed 's/.*replay=\/verif\/replays\///' | tr '\n' ' ' | cut -c1-300)"
+  echo "  $p: violations=$v $(echo "$out" | grep '^VIOLATION' | sed 's/.*replay=\/verif\/replays\///' | tr '\n' ' ' | cut -c1-3000)"
 done
 git checkout -q -- $(git diff --name-only -- . ':!verif_contracts_*')
